@@ -216,6 +216,10 @@ def stepLine (s : State) (line : String) : State × String :=
     match c.toNat? with
     | some c => doAct s (.stop c)
     | none => (s, "bad-op")
+  | ["stopreq", c] =>
+    match c.toNat? with
+    | some c => doAct s (.stopReq c)
+    | none => (s, "bad-op")
   | "dump" :: c :: toks =>
     match c.toNat? with
     | some c => (s, dump s c toks)
